@@ -76,15 +76,17 @@ MultiOrderN(len) == {[form |-> "multi", keys |-> [i \in DOMAIN ks |-> CK(ks[i])]
                       n |-> Len(ks), nenc |-> ne, sigs |-> FirstSigs(ks, m)]
                      : ks \in SeqsBetween(K3, len, len), m \in 1..len, ne \in {"op", "b1", "b2", "d1"}}
 MultiOrder == MultiOrderN(2) \cup MultiOrderN(3)
-\* two keys, both orders, every encoding / push of each key
-MultiEnc == {[form |-> "multi", keys |-> <<a, b>>, m |-> m, menc |-> "op", n |-> 2, nenc |-> "op",
-              sigs |-> FirstSigs(<<a.v, b.v>>, m)]
-             : a \in UNION {KD(k) : k \in K3}, b \in UNION {KD(k) : k \in K3}, m \in 1..2}
-SetsC17 == SingleV \cup MultiOrder \cup MultiEnc
-TxC17 == {Tx1(PSet(1), s) : s \in SetsC17}
-         \cup {[payer |-> PSet(1), sets |-> <<Single(1, <<Good(1)>>), s>>] : s \in SingleV \cup {s \in MultiOrder : s.nenc = "op"}}
-
-NextC17 == (phase = "idle" /\ \E t \in TxC17 : Submit(t)) \/ Other
+\* two keys, both orders, every encoding / push of each key (enumerated by nested quantifiers, see SubmitOneSet)
+KDall == UNION {KD(k) : k \in K3}
+MultiEncSet(a, b, m) == [form |-> "multi", keys |-> <<a, b>>, m |-> m, menc |-> "op", n |-> 2, nenc |-> "op",
+                         sigs |-> FirstSigs(<<a.v, b.v>>, m)]
+SmallC17 == SingleV \cup MultiOrder
+SubmitC17 ==
+    \/ \E s \in SmallC17 : Submit(Tx1(PSet(1), s))
+    \/ \E a \in KDall, b \in KDall, m \in 1..2 : Submit(Tx1(PSet(1), MultiEncSet(a, b, m)))
+    \/ \E s \in SingleV \cup {x \in MultiOrder : x.nenc = "op"} :
+           Submit([payer |-> PSet(1), sets |-> <<Single(1, <<Good(1)>>), s>>])
+NextC17 == (phase = "idle" /\ SubmitC17) \/ Other
 SpecC17 == Init /\ [][NextC17]_vars
 
 -----------------------------------------------------------------------------
